@@ -49,11 +49,18 @@ func genNasty(rng *rand.Rand) string {
 }
 
 func genNasty0(rng *rand.Rand) string {
-	k := rng.IntN(7)
+	k := rng.IntN(8)
 	if k == 6 {
 		k = 2
 	}
 	switch k {
+	case 7:
+		// address/length, address/netmask, address/address in every family combination
+		ad := func() string {
+			return pick(rng, "1.2.3.4", "192.168.0.0", "10.0.0.0", "::", "::1", "fe80::1%eth0", "::ffff:1.2.3.4", "::255.255.255.0", "64:ff9b::255.0.0.0",
+				"255.255.255.0", "ffff:ffff::", "", "1.2.3", "::1.2.3.4%eth0", "0.0.0.0", "255.255.255.255")
+		}
+		return ad() + "/" + pick(rng, ad(), ad(), ad(), "24", "0", "128", "129", "-1", "")
 	case 0:
 		n := rng.IntN(300)
 		b := make([]byte, n)
@@ -73,6 +80,7 @@ func genNasty0(rng *rand.Rand) string {
 					pick(rng, "", "%", "%4", "%25", "%eth0", "%2", "%25e", "%%", "%25eth0") + pick(rng, "]", "]", "", "]]") +
 					pick(rng, "", "", ":", ":53", ":65536", ":x", ":0")
 			}
+
 			n := 1 + rng.IntN(6)
 			var sb strings.Builder
 			for i := 0; i < n; i++ {
